@@ -38,6 +38,10 @@ size_t read_counter(const char *path, struct trace *trace) {
 }
 
 void write_counter(const char *path, size_t counter, struct trace *trace) {
+  if (!ok(trace)) {
+    return;
+  }
+
   if (counter == 0) {
     if (!unlink(path)) {
       remove_empty_parents(path, trace);
